@@ -33,7 +33,8 @@ Check(r) ==
     \o (IF r.kind = "vi" /\ r.done = 1
         THEN Flag(r.row >= 0 /\ r.row < Max2(1, r.n), "cursor-line", <<r.row, r.n>>)
              \o Flag(r.big = 1 \/ r.row >= n \/ (r.off >= 0 /\ r.off < Max2(1, Len(r.lines[r.row + 1]))), "cursor-offset", <<r.row, r.off>>)
-             \o Flag(r.top >= 0 /\ r.top <= r.row /\ r.row < r.top + Max2(1, r.rows), "window", <<r.top, r.row, r.rows>>)
+             \* a window split down to no text rows shows nothing: nothing to require
+             \o Flag(r.rows < 1 \/ (r.top >= 0 /\ r.top <= r.row /\ r.row < r.top + r.rows), "window", <<r.top, r.row, r.rows>>)
         ELSE <<>>)
 Init == l = 1 /\ viol = <<>> /\ nchk = 0
 Next == /\ l <= Len(Tr) /\ l' = l + 1
